@@ -793,6 +793,13 @@ func (w *World) Grow(id, kept int) {
 	w.farm.mu.Unlock()
 }
 
+// SetDown makes a target answer 500 at the farm (it stays discovered and explored).
+func (w *World) SetDown(id int, down bool) {
+	w.farm.mu.Lock()
+	w.farm.down[id] = down
+	w.farm.mu.Unlock()
+}
+
 // AddTarget / RemoveTarget change discovery.
 func (w *World) AddTarget(t TargetSpec) { w.setTarget(t) }
 func (w *World) RemoveTarget(id int)    { w.removeTarget(id) }
